@@ -25,6 +25,8 @@ define(`MOVQ',`movd')
 
 ASM_START()
 PROLOGUE(mpn_lshiftc)
+C the count is an int argument: the upper half of its register is undefined
+	mov	%ecx, %ecx
 MOVQ %rcx,%mm0
 mov $64,%rax
 sub %rcx,%rax
